@@ -36,15 +36,34 @@ def run_harness(ctx, exe, scs, tag, timeout=None):
     out = os.path.join(ctx.work, tag + ".ndjson")
     with open(sched, "w") as f:
         f.write("\nReset\n".join(line(s) for s in scs) + "\n")
+    t_start = time.time()
     rc, so, se = ctx.run([exe, sched, out], timeout=timeout or (60 + 8 * len(scs)))
     per = [[]]
+    hpid = None
     if os.path.exists(out):
         for ln in open(out):
-            if ln.startswith('{"e":"Reset"'):
+            if ln.startswith('{"e":"Hello"'):
+                hpid = json.loads(ln)["a"][0]
+            elif ln.startswith('{"e":"Reset"'):
                 per.append([])
             elif ln.strip():
                 per[-1].append(ln)
+    if rc != 0 and hpid:
+        sweep(hpid, t_start)
     return rc, per, se
+
+
+def sweep(pid, since):
+    """a harness process that stopped abnormally cannot clean /dev/shm itself: remove the entries that carry its pid as
+    server pid (or, for its forked servers, as client pid) and were created after it started (nothing older, nothing of
+    anybody else)"""
+    import glob, shutil
+    for p in glob.glob("/dev/shm/qb-%d-*" % pid) + glob.glob("/dev/shm/qb-*-%d-*" % pid):
+        try:
+            if os.lstat(p).st_mtime >= since - 1:
+                shutil.rmtree(p) if os.path.isdir(p) else os.remove(p)
+        except OSError:
+            pass
 
 
 def write_trace(path, per):
